@@ -24,8 +24,9 @@
         reached by a model history — one more life per nesting level, [model_tree] — and whose probe
         components are model observations, [mon_life] reports nothing.  PARTIAL: the [final] and
         [opres] components (reads in a RUNNING store after the restart and after further uploads)
-        are assumed clean by an explicit hypothesis of [model_tree]: the crash model has no
-        observation function for a running store.
+        are assumed clean by an explicit hypothesis of [model_tree], or — the only case the crash
+        model can speak about — are themselves model observations of the restart medium, which is
+        what they are when the life has made no model step (see the comment at [model_tree]).
 
     Abstractions (say what the labelling means).  The model has keys ([N]) but no object versions and
     no bytes.  [ver j k] labels upload [k] of life [j] with the version it uploaded; "the bytes are
@@ -278,25 +279,78 @@ Section Model.
     reflexivity.
   Qed.
 
+  (** the same for a list of [Get] answers, one per key (the shape of the [final] component) *)
+  Theorem gets_silent_on_model H m opss gets : geo_ok -> lives g H m -> labelled H opss ->
+    indexed (model_get_obs H m) 0 gets ->
+    flat_map (fun kg => get_clauses opss (fst kg) (snd kg)) (zip_index 0 gets) = [].
+  Proof.
+    intros G HL Lb. apply flat_map_zip_index_nil. intros i e Hg. cbn [fst snd].
+    exact (probe_get_silent_on_model H m opss i _ G HL Lb Hg).
+  Qed.
+
+  (** FindMissing of a key list: UNAVAILABLE, or the list of missing keys; a key reported present has
+      a resolving record *)
+  Definition model_fms_obs (m : medium irec) (keys : list Z) (o : sx) : Prop :=
+    o = L [A 14] \/
+    exists miss, o = L [A 0; L (map A miss)] /\
+      forall k, In k keys -> ~ In k miss -> exists slot r i, resolves g m slot r i /\ Z.of_N (r_key r) = k.
+
+  (** the answer to one operation of the op list, read as an operation on the restart medium:
+      (5 key) = Get, (6 (key ...)) = FindMissing, anything else is not looked at by the monitor *)
+  Definition model_opres_obs (H : list life) (m : medium irec) (oo : sx * sx) : Prop :=
+    match sx_Z (sx_nth (fst oo) 0) with
+    | 5 => model_get_obs H m (sx_Z (sx_nth (fst oo) 1)) (snd oo)
+    | 6 => model_fms_obs m (sx_Zs (sx_nth (fst oo) 1)) (snd oo)
+    | _ => True
+    end.
+
+  Theorem opres_silent_on_model H m opss ops obs : geo_ok -> lives g H m -> labelled H opss ->
+    Forall (model_opres_obs H m) (combine (sx_list ops) (sx_list (sx_nth obs 3))) ->
+    opres_clauses opss ops obs = [].
+  Proof.
+    intros G HL Lb F. unfold opres_clauses. apply flat_map_nil_iff. eapply Forall_impl; [|exact F].
+    intros oo Ho. unfold model_opres_obs in Ho. destruct (sx_Z (sx_nth (fst oo) 0)) as [|p|p]; try reflexivity.
+    destruct p as [p|p|]; try reflexivity; destruct p as [p|p|]; try reflexivity;
+      destruct p as [p|p|]; try reflexivity.
+    - (* 5 *) exact (probe_get_silent_on_model H m opss _ _ G HL Lb Ho).
+    - (* 6 *) destruct Ho as [->|(miss & -> & _)]; reflexivity.
+  Qed.
+
   (** ---- (3) observation trees reached by model histories ----
       [model_tree d H m opss ing obs]: the node (ing, obs) at depth [d] is the observation of a life that
       started on the medium [m] left by the history [H] ([d] = length H; [opss] = the op lists of the
       lives of [H], newest first).  At depth >= 1 its probe list consists of model observations for
-      [H], [m]; its [final] and [opres] components are ASSUMED clean: they are reads in a RUNNING
-      store, after the restart and after the life's own uploads, for which the crash model (media
-      after a crash, restart, resolution) has no observation function.  Every experiment of the
-      node is a crash of this life: a model life [lf] on [m] (any reachable state, any crash point,
-      any loss choice) whose uploads are labelled by the node's op list, and the subtree is a model
-      tree for the history [H ++ [lf]] and the medium the crash leaves.  (The judge's [tie_life]
-      checks, case by case, that the implementation's media after each crash are what
-      [crash_medium] computes from the implementation's own log; here the life is the model's.) *)
+      [H], [m].  Every experiment of the node is a crash of this life: a model life [lf] on [m] (any
+      reachable state, any crash point, any loss choice) whose uploads are labelled by the node's op
+      list, and the subtree is a model tree for the history [H ++ [lf]] and the medium the crash
+      leaves.  (The judge's [tie_life] checks, case by case, that the implementation's media after
+      each crash are what [crash_medium] computes from the implementation's own log; here the life
+      is the model's.)
+
+      The [final] and [opres] components are answers of a RUNNING store: after the restart, after
+      the probe, after the life's own operations.  They are ASSUMED clean (left disjuncts).  Why the
+      crash model cannot do better: the LTS [crun] has no read event and no volatile view of the
+      data device — a running store reads every write ISSUED so far through its volatile index
+      ([cs_tbl], [live_index]), not the post-crash selection [crash_medium]; that every record the
+      volatile index accepts designates a completed upload owning its bytes in that view is the
+      running-store analogue of [SafeF], a different invariant, not a consequence of the crash
+      theorems.  Nor is a life without upload operations quiescent: a Get of an object in an old
+      block refreshes it (allocation, data writes, a record move — in the LTS [CPutStart] / [CData] /
+      [CFinalize] with a move), block rotation may release blocks, the syncer loops write state
+      files; so "no store step" cannot be read off the op list.  The one case the crash model does
+      describe is a life that has made NO model step at all (its state is [cinit g m t0]): then the
+      store reads exactly the restart medium and its answers are [model_get_obs] answers for
+      [H], [m] — the right disjuncts, covered by [gets_silent_on_model] / [opres_silent_on_model].
+      Whether that is the case is a hypothesis about the node, like everything in [model_tree]. *)
   Inductive model_tree : nat -> list life -> medium irec -> list sx -> sx -> sx -> Prop :=
   | mt_node d H m opss ing obs :
       abnormal obs = false ->
       (d <> O ->
          indexed (model_probe_obs H m) 0 (sx_list (sx_nth obs 2)) /\
-         final_clauses (sx_nth ing 0 :: opss) obs = [] /\
-         opres_clauses (sx_nth ing 0 :: opss) (sx_nth ing 0) obs = []) ->
+         (final_clauses (sx_nth ing 0 :: opss) obs = [] \/
+          indexed (model_get_obs H m) 0 (sx_list (sx_nth obs 4))) /\
+         (opres_clauses (sx_nth ing 0 :: opss) (sx_nth ing 0) obs = [] \/
+          Forall (model_opres_obs H m) (combine (sx_list (sx_nth ing 0)) (sx_list (sx_nth obs 3))))) ->
       Forall (fun eo => exists lf,
                 creach g (lf_cfg lf) m (lf_t0 lf) (lf_c lf) /\
                 labelled (H ++ [lf]) (sx_nth ing 0 :: opss) /\
@@ -312,8 +366,11 @@ Section Model.
     intros G. induction fuel as [|f IH]; intros d H m opss ing obs HL Lb MT; [reflexivity|].
     inversion MT as [d' H' m' opss' ing' obs' Hab Hh Hc]; subst.
     apply mon_life_nil_iff. split; [exact Hab|]. split.
-    - intros Hd. destruct (Hh Hd) as (Hp & Hf & Ho). split; [|split; assumption].
-      apply (probe_silent_on_model H m); [exact G|exact HL|apply labelled_cons; exact Lb|exact Hp].
+    - intros Hd. destruct (Hh Hd) as (Hp & Hf & Ho).
+      pose proof (labelled_cons H (sx_nth ing 0) opss Lb) as Lb1. split; [|split].
+      + apply (probe_silent_on_model H m); [exact G|exact HL|exact Lb1|exact Hp].
+      + destruct Hf as [Hf|Hf]; [exact Hf|]. exact (gets_silent_on_model H m _ _ G HL Lb1 Hf).
+      + destruct Ho as [Ho|Ho]; [exact Ho|]. exact (opres_silent_on_model H m _ _ _ G HL Lb1 Ho).
     - eapply Forall_impl; [|exact Hc]. intros eo (lf & HR & Lb' & MT').
       apply (IH _ _ _ _ _ _ (lives_snoc g H m lf HL HR) Lb' MT').
   Qed.
